@@ -159,6 +159,10 @@ func (x *Exec) runFunc(st *State, fn *ssa.Function, args []*Val, bind []*Val, de
 	st.frames = append(st.frames, fr)
 	x.enterBlock(st, fr, nil, fn.Blocks[0], func(st2 *State, res *Val) {
 		st2.frames = st2.frames[:len(st2.frames)-1]
+		// join points of the returned activation are no longer pending on this path
+		for len(st2.stops) > 0 && st2.stops[len(st2.stops)-1].depth >= len(st2.frames) {
+			st2.stops = st2.stops[:len(st2.stops)-1]
+		}
 		ret(st2, res)
 	})
 }
@@ -199,6 +203,13 @@ func (x *Exec) evalPhis(st *State, fr *Frame, from, to *ssa.BasicBlock) int {
 }
 
 func (x *Exec) enterBlock(st *State, fr *Frame, from, to *ssa.BasicBlock, ret retFn) {
+	if n := len(st.stops); n > 0 && from != nil {
+		sp := st.stops[n-1]
+		if sp.depth == len(st.frames)-1 && sp.block == to {
+			sp.caps = append(sp.caps, capture{st: st, from: from, side: sp.side})
+			return
+		}
+	}
 	li := loopsOf(fr.fn)
 	if ord, isHeader := li.headers[to.Index]; isHeader {
 		x.enterLoopHeader(st, fr, from, to, ord, li, ret)
@@ -297,9 +308,7 @@ func (x *Exec) runFrom(st *State, fr *Frame, b *ssa.BasicBlock, idx int, ret ret
 					return
 				}
 			}
-			x.fork2(st, c, "if@"+x.site(in.Pos()),
-				func(s *State) { x.enterBlock(s, s.top(), b, b.Succs[0], ret) },
-				func(s *State) { x.enterBlock(s, s.top(), b, b.Succs[1], ret) })
+			x.doIf(st, fr, b, c, "if@"+x.site(in.Pos()), ret)
 			return
 		case *ssa.Jump:
 			x.enterBlock(st, fr, b, b.Succs[0], ret)
